@@ -22,6 +22,8 @@ def fn_kind(f, fn_names=None):
         return k
     if 'LambdaOp' in getattr(f, '__qualname__', ''):
         return 'lambda'         # a program lambda created in an unmonitored (twin) universe
+    if 'smartquery' in str(getattr(type(f), '__module__', '')):
+        return 'lambda'         # a callable object of a class the package defines (how it represents lambdas is its business)
     return 'callable'
 
 
